@@ -30,7 +30,11 @@ PARTIAL = ('proved for all L >= 1 and all parameters (Properties/C06.v): the shi
            'fermionic graph denotes sum_i coeff_i I^i (C|A) Z^(L-1-i) for every L; the Ising automaton graph denotes the path sum of the '
            'automaton (C17) which equals the textbook word sum; kernel-checked finite facts: spin-1/2 and Fermi-Hubbard operator maps, '
            'XX+YY = (S+S- + S-S+)/2, Kronecker structure, word adjoint / Hermiticity of each table, charges of each operator. '
-           'NOT proved: that from_opchains succeeds on these chain lists (checked per case), dense-matrix equality for all L '
+           'SUCCESS for every L >= 1 and all parameters (C06_xxz_total, C06_xxz1_total, C06_bose_total, C06_fermi_total, with C05 and the proved cover model): '
+           'whenever some local chain that fits has a non-zero coefficient (some_term, equivalent to: not all resulting chain coefficients vanish) the shifted '
+           'chain list is well formed, the constructor\'s graph exists, is linked, cannot fail is_consistent, has length L and denotes the textbook formula '
+           '-- no "returns Ok" hypothesis. '
+           'NOT proved: dense-matrix equality for all L '
            '(only through C05_chains_to_mpo under its per-case hypotheses), the Jordan-Wigner padding lemma for general L (two-site products kernel-checked), sqrt entries of spin-1 / boson maps (abstract elements with the stated square).')
 ASSUMPTIONS = ['"documented formula" = the docstring read with: first site most significant, Jordan-Wigner strings to the right (I..I a Z..Z), local basis |n_up n_dn>']
 RULE = ('models: Ising, XXZ spin-1/2, XXZ spin-1, Bose-Hubbard (d in 1..4), Fermi-Hubbard, linear fermionic (both types, complex coefficients); '
